@@ -132,6 +132,10 @@ func c10Trial(c *rt.Ctx, sub int, r *rand.Rand, G, procs, opsPer int, yieldMode 
 			case 23:
 				ops = append(ops, c10Op{name: "decode:failing", run: func() (string, string) {
 					bad := [][]byte{[]byte(`{"a":{"b":1}} x`), []byte(`[1,2`), []byte(`{"A":"s"}`), []byte(`{"a":1}{`)}[id%4]
+					if id%6 < 3 && id%5 == 0 {
+						// a slice member whose elements lack a separator: the array decoder's own error exit
+						bad = [][]byte{[]byte(`{"A":1,"D":[1,2,3 4]}`), []byte(`{"D":[1 2]}`), []byte(`{"D":[1,2,3,4,5;6]}`)}[id%3]
+					}
 					if id%6 == 3 || id%6 == 4 {
 						// the path entry points fail on malformed input only
 						bad = [][]byte{[]byte(`{"a":{"b":1}} x`), []byte(`[1,2`), []byte(`{"a":{"b":[1]},"k":[1,2]}]`)}[id%3]
